@@ -999,6 +999,8 @@ impl AnnotationStore {
     }
 
     pub fn changed(&self) -> bool {
+        #[cfg(stam_verif)]
+        crate::verif::yield_point(crate::verif::SITE_GET_CHANGED);
         if let Ok(changed) = self.changed.read() {
             *changed
         } else {
